@@ -13,7 +13,7 @@ oracle   : grammar-directed generator that emits text + expected tree (vlib/gen/
 import re
 
 from .. import core, ranges, sexp
-from ..gen import wf, parsecases
+from ..gen import wf, parsecases, exspec
 
 RULE = ("cases = well-formed programs from the grammar-directed generator vlib/gen/wf.py (every construct of the supported grammar, depth/size bounded) "
         "under random layout and keyword case, + every ordered pair of binary operators (a op1 b op2 c), + every block statement nested in every "
@@ -77,6 +77,7 @@ def run(ctx):
         return replay(ctx)
     ctx.extract(["E5_OperatorLadder"])
     ctx.prove("GoldModel.Props.C06")
+    ctx.prove("GoldModel.Props.C06Expr")
     if not ctx.build_harness():
         return ctx.finish(rule=RULE)
     q = ctx.tier == "quick"
@@ -123,6 +124,7 @@ def run(ctx):
         texts.append(wf.render(ctx.rng, toks))
         expected.append(tree)
         ctx.count("generated-program")
+    expr_spec(ctx, 3000 if q else 60000, 6)
     lines = parsecases.texts_to_lines(ctx, texts)
     ctx.log("%d programs" % len(lines))
     impl = ctx.run_harness("parse", lines, timeout=1200)
@@ -157,6 +159,61 @@ def run(ctx):
             ctx.oracle_fail("C06:innermost-node-is-not-the-identifier", "at identifier %s %s the innermost node is %s %s" % inner[0], case)
     ctx.samples = [{"text": texts[i][:400], "expected": norm_expected(expected[i])[:400]} for i in (0, len(texts) - 1, len(texts) // 2)]
     return ctx.finish(rule=RULE, extra={"exhaustive": True, "exhaustive_space": "all ordered pairs of the 23 binary operators; every block statement nested in every other"})
+
+
+def dump_node(n):
+    return "(%s %s %d:%d-%d:%d%s)" % ((n.kind, core.esc(n.ident)) + tuple(n.rng) + ("".join(" " + dump_node(k) for k in n.kids),))
+
+
+def expr_spec(ctx, n, depth):
+    """tie of the SPEC side of `expr_roundtrip` (Ex.toks / Ex.tree / Ex.wfb, Lean) to the implementation: random abstract
+    expressions are printed, lexed and parsed by the real code; the Lean spec, given the real tokens, must say `well formed`
+    and its `Ex.tree` must be the subtree the implementation built for the right-hand side (kinds, names, ranges)"""
+    cases = []
+    for i in range(n):
+        words, prefix = exspec.case(ctx.rng, 1 + ctx.rng.below(depth))
+        sep = [ctx.rng.choice([" ", " ", "  ", " \n  "]) for _ in words]
+        text = "proc P\n x = " + "".join(w + s for w, s in zip(words, sep)) + "\nendproc\n"
+        cases.append((text, words, prefix))
+        ctx.count("expr-spec")
+    lines = parsecases.texts_to_lines(ctx, [c[0] for c in cases])
+    impl = ctx.run_harness("parse", lines, timeout=1200)
+    spec_lines = []
+    for (text, words, prefix), line in zip(cases, lines):
+        toks = line.split(" ")[1:]
+        # proc P x = <expr words> endproc
+        ex = toks[4:4 + len(words)]
+        spec_lines.append("exspec 8 " + " ".join(ex[int(w[1:])] if w.startswith("#") and int(w[1:]) < len(ex) else w for w in prefix))
+    spec = ctx.run_driver(spec_lines, timeout=1200)
+    ok, bad = 0, []
+    for (text, words, prefix), line, a, sp in zip(cases, lines, impl, spec):
+        case = {"mode": "text", "text": text, "case": line}
+        t, d = sexp.field(a, "T"), sexp.field(a, "D")
+        toks = line.split(" ")[1:]
+        if len(toks) != len(words) + 5:
+            bad.append("the generator's words are not the lexer's tokens: %r" % text)
+            continue
+        if t is None or d:
+            ctx.oracle_fail("C06:diagnostic-on-well-formed-program", "a well-formed expression produced %s" % (core.unesc(d or "")[:200] or "no tree"), case)
+            continue
+        w, st, k = sexp.field(sp, "W"), sexp.field(sp, "T"), sexp.field(sp, "K")
+        if w != "1" or k != ",".join(toks[4:4 + len(words)]):
+            bad.append("the Lean spec rejects (W=%s) or re-orders the tokens of a minimally parenthesised expression: %r" % (w, text))
+            continue
+        root = sexp.parse(t)
+        try:
+            rhs = root.kids[0].kids[1].kids[0].kids[1]
+        except IndexError:
+            rhs = None
+        got = dump_node(rhs) if rhs is not None else "<none>"
+        want = dump_node(sexp.parse(st))
+        if got != want:
+            ctx.oracle_fail("C06:tree-differs-from-intended", "the tree built for an expression differs from Ex.tree of the specification",
+                            dict(case, got=got[:600], want=want[:600]))
+            continue
+        ok += 1
+    ctx.oblige("tie:exspec", not bad, "%d cases, first: %s" % (len(bad), bad[0] if bad else ""))
+    ctx.log("exspec: %d expressions, implementation tree == Ex.tree (ranges included)" % ok)
 
 
 def replay(ctx):
